@@ -181,6 +181,28 @@ def translate_ddict_hashset():
     return consts, cond, probe("emplaceDDict"), probe("getDDict")
 
 
+def translate_seq_validation():
+    """where ZSTD_copySequencesToSeqStore{Explicit,No}BlockDelim evaluate the validation position: the `seqPos->posInSrc += ...`
+    statements BEFORE the ZSTD_validateSequence call (per function), as a Lean expression over pos / ll / ml"""
+    zc = read("lib/compress/zstd_compress.c")
+    out = {}
+    for fn in ("ZSTD_copySequencesToSeqStoreExplicitBlockDelim", "ZSTD_copySequencesToSeqStoreNoBlockDelim"):
+        b = func_body(zc, r"%s\s*\([^)]*\)\s*\{" % fn) or ""
+        b = re.sub(r"/\*.*?\*/", " ", b, flags=re.S)
+        i = b.find("ZSTD_validateSequence(")
+        j = b.rfind("if (cctx->appliedParams.validateSequences)", 0, i)
+        before = b[j:i] if i > 0 and j >= 0 else ""
+        expr = "pos"
+        for inc in re.findall(r"seqPos->posInSrc\s*\+=\s*([^;]+);", before):
+            inc = inc.replace("litLength", "ll").replace("matchLength", "ml")
+            if re.fullmatch(r"[\sllm\+]+", inc):
+                expr = "%s + (%s)" % (expr, inc.strip())
+            else:
+                expr = "%s + 0 /- untranslated: %s -/" % (expr, inc.strip()[:40])
+        out[fn] = expr
+    return out
+
+
 def lean_int(v):
     return "(%d)" % v if v < 0 else str(v)
 
@@ -253,6 +275,14 @@ def emit(tables, cps, dps):
     h += "def probeNextGet (idx mask : Nat) : Nat := %s\n" % pg
     h += "\nend ZstdVerif.Gen.DDictHS\n"
     files["DDictHS.lean"] = h
+    sv = translate_seq_validation()
+    q = hdr + "namespace ZstdVerif.Gen.SeqVal\n\n"
+    q += "/-- position (bytes the decoder will have regenerated) against which ZSTD_validateSequence is evaluated, as a function of the position\n"
+    q += "before the sequence and its literal / match lengths - translated from the statements preceding the call -/\n"
+    q += "def posAtValidationExplicit (pos ll ml : Nat) : Nat := %s\n" % sv["ZSTD_copySequencesToSeqStoreExplicitBlockDelim"]
+    q += "def posAtValidationNoDelim (pos ll ml : Nat) : Nat := %s\n" % sv["ZSTD_copySequencesToSeqStoreNoBlockDelim"]
+    q += "\nend ZstdVerif.Gen.SeqVal\n"
+    files["SeqVal.lean"] = q
     return files
 
 
